@@ -161,6 +161,26 @@ RetPred(v) == /\ frames # <<>> /\ Top.k = "P" /\ Top.inpred
                            ELSE SetTop([Top EXCEPT !.inpred = FALSE, !.stopped = TRUE])
               /\ UNCHANGED <<lst, flt, nn, nf, ndisp, bad>> /\ UQ /\ H("pt", v, 0)
 
+\* user code throws (listener, filter or predicate): the exception leaves the dispatch; if that dispatch belongs to a processing
+\* call the exception leaves that call too: its tempList/idleList are destroyed (every event it still held is discarded, the
+\* slots are modelled as recycled - their identity is not observable) and the CounterGuard drops the guard
+Discard(oc, ss) == [s \in Slots |-> IF InSeq(ss, s) THEN 0 ELSE oc[s]]
+RetThrow ==
+  /\ frames # <<>> /\ "x" \in Ops /\ InUser
+  /\ LET n == Len(frames)
+         inProc == IF Top.k = "P" THEN TRUE ELSE (~Top.explicit /\ n > 1)
+         pidx == IF Top.k = "P" THEN n ELSE n - 1 IN
+     IF ~inProc
+     THEN frames' = PopF /\ UNCHANGED <<qlist, flist, occ, ecount, where>>
+     ELSE LET p == frames[pidx]  held == p.temp IN
+          /\ frames' = SubSeq(frames, 1, pidx - 1)
+          /\ occ' = Discard(occ, held)
+          /\ where' = [u \in DOMAIN where |-> IF \E i \in 1..Len(held) : occ[held[i]] = u THEN "done" ELSE where[u]]
+          /\ flist' = flist \o held \o p.idle
+          /\ ecount' = IF Fixed("no_guard_one") \/ p.mode # "one" THEN ecount - 1 ELSE ecount
+          /\ UNCHANGED qlist
+  /\ UNCHANGED <<lst, flt, nn, nf, nslot, nuid, ndisp, ekey, bad>> /\ H("x", 0, 0)
+
 \* ------------------------------------------------------------------ the library's own control flow between user code
 Tau ==
   /\ ~InUser /\ UNCHANGED <<lst, flt, nn, nf, nslot, nuid, ndisp, ekey, hist>>
@@ -199,6 +219,7 @@ Next == \/ \E e \in Events : \/ OpAppendL(e) \/ OpPrependL(e) \/ OpDispatch(e) \
         \/ OpAppendF \/ \E h \in 1..MaxFilters : OpRemoveF(h)
         \/ OpProcess("pa", "all") \/ OpProcess("po", "one") \/ OpProcess("pi", "if") \/ OpProcess("pu", "until")
         \/ OpPeek \/ OpTake \/ OpClear \/ OpEmptyQ
+        \/ RetThrow
         \/ RetListener \/ \E d \in 0..1, v \in 0..1 : RetFilter(d, v)
         \/ \E v \in 0..1 : RetPred(v)
         \/ Tau
